@@ -3,6 +3,7 @@ package streamfilter
 import (
 	internaltypes "lunar/engine/streams/internal-types"
 	publictypes "lunar/engine/streams/public-types"
+	"lunar/engine/utils"
 
 	"github.com/rs/zerolog/log"
 )
@@ -69,8 +70,17 @@ func (node *FilterNode) isStatusCodeQualified(
 		return true
 	}
 
+	response := APIStream.GetResponse()
+	if utils.IsInterfaceNil(response) {
+		// The response flows of a request answered inside the gateway (early response) are
+		// looked up with no response attached to the stream: its status is not known here,
+		// so a flow that asks for specific status codes is not qualified.
+		log.Trace().Msgf("No response to qualify the status code on Flow: %s", flow.GetName())
+		return false
+	}
+
 	for _, statusCode := range allowedStatusCodes {
-		if statusCode == APIStream.GetResponse().GetStatus() {
+		if statusCode == response.GetStatus() {
 			log.Trace().Msgf("Status code is qualified for Flow: %s", flow.GetName())
 			return true
 		}
